@@ -30,11 +30,25 @@ RULE = ("aa.Inversion(dataset, linear_obj_list, settings, preloads=Preloads(...)
         "of the five set_* methods; the filled Preloads object, which calls raised, fit_0's reads and the fresh values of the filled slots go to "
         "Coq (KSet), followed by a history that uses the Preloads object (KHist); directed sub-streams reproduce defects 1fc8a9b and f780999. "
         "'subsets' cases (Python level): ALL subsets of the available slots x 2 inversions, byte fingerprints of every preloaded array. "
+        "'grid' cases (Python level, deterministic structure in every seed): every position structure fm / mf / mfm / fmf / mff / ffm / "
+        "mmf / fmm / mm / mfmf / fmfm / ffmm (neighbouring mappers with different parameter counts, function lists with distinct matrices "
+        "and alternately equal / different column counts, overrides) x {w-tilde class, mapping class, preloads of the mapping class against "
+        "the w-tilde inversion without preloads} x {no slot, every slot alone, 10 interacting pairs, all but one, all; all as aliases of the "
+        "producing inversion} x 2 inversions reading 20 attributes (the 15 modelled + the per-object dictionaries mapped_reconstructed_"
+        "data_dict / reconstruction_dict / mapped_reconstructed_image_dict with their keys, mapped_reconstructed_image) in rotated and "
+        "reversed orders; the Preloads object must come back unwritten. 'sets' grid (Python level): the same structures through "
+        "Preloads.set_* with fit_1 identical / other function objects AND other data / another number of parameters / other noise. "
+        "Kinds on a deterministic schedule (and at random in the Coq-checked streams): dataset = Imaging or DatasetInterface (its own noise "
+        "map, scaled per pixel with pixel 0 kept, and its own w_tilde; the fit's dataset keeps the unscaled noise map), entry point = "
+        "aa.Inversion / inversion_imaging_from / the class constructor (default preloads argument), trivial subclasses of Preloads, "
+        "SettingsInversion, the mapper, the function list and the regularization, int64- / float32-typed function matrices and overrides. "
+        "Fingerprints also cover the linear_obj_list object, the regularization objects, each mapper's unique-mapping arrays, dataset.w_tilde "
+        "and the default-argument objects of the two factories and the four class constructors. NO preloaded array may change (95fc1c6). "
         "'noise' cases: a preloaded w_tilde whose noise_map_value differs. Comparisons are relative to the scale of the expected value. "
         "Non-trivial = at least one slot filled and at least one mapper; distinct = distinct JSON input.")
 EXHAUSTIVE = {"quick": "per 'subsets' case: all subsets of the slots available for that object mix (up to 2^10), 2 inversions each",
               "thorough": "per 'subsets' case: all subsets of the slots available for that object mix (up to 2^10), 3 inversions each"}
-TRUSTED = ["hand-written Gallina model coq/Model/C15.v (slot look-ups, cache, references/aliases into the Preloads object, in-place "
+TRUSTED = ["hand-written Gallina model coq/Model/C15.v (follows /repo 95fc1c6; slot look-ups, cache, references/aliases into the Preloads object, in-place "
            "statements, the five Preloads.set_* methods) tied to /repo by this correspondence run: the model is executed at Q with dense "
            "reference semantics of the numeric kernels (C = convolver applied to the identity, W = P + P^T expanded from the w-tilde triple); "
            "the comparison is evaluated inside Coq by vm_compute",
@@ -101,6 +115,17 @@ def gen_env(rng, b, plain=0.5):
     if rng.random() < 0.6: b["share"] = True                         # ONE settings object for every inversion of the case
     if rng.random() < 0.3: b["st"] = {"edge0": rng.random() < 0.5, "pinit": rng.choice([None, True, False])}
     if rng.random() < 0.35: b["alias"] = True                        # slots hold the very arrays / dicts of the producing inversion
+    gen_kinds(rng, b)
+    return b
+
+def gen_kinds(rng, b, p=0.3):
+    """entry points, dataset / argument / linear-object KINDS (values and expected outputs are unchanged by all of them)"""
+    if rng.random() < p: b["iface"] = rng.choice(["plain", "scaled"])      # a DatasetInterface (own noise map and w_tilde) instead of Imaging
+    if rng.random() < p: b["entry"] = rng.choice(["imaging_from", "class"])  # inversion_imaging_from / the class constructor, not aa.Inversion
+    if rng.random() < p: b["subcls"] = True                                  # Preloads, SettingsInversion, mapper, function list, regularization: subclasses
+    if rng.random() < p:
+        for o in b["objs"]:
+            if o["k"] == "f": o["idt"] = rng.choice(["int", "f32", None])    # integer- / float32-typed function matrices
     return b
 
 def gen_hist(rng):
@@ -131,6 +156,104 @@ def gen_edits(rng, hist):
                   if rng.random() < 0.7 else None)
     return ed
 
+GRID_MIXES = ["fm", "mf", "mfm", "fmf", "mff", "ffm", "mmf", "fmm", "mm", "mfmf", "fmfm", "ffmm"]
+GRID_PAIRS = [("linear_func_operated_mapping_matrix_dict", "data_linear_func_matrix_dict"),
+              ("linear_func_operated_mapping_matrix_dict", "mapper_operated_mapping_matrix_dict"),
+              ("data_linear_func_matrix_dict", "mapper_operated_mapping_matrix_dict"),
+              ("data_vector_mapper", "curvature_matrix_mapper_diag"), ("curvature_matrix", "regularization_matrix"),
+              ("operated_mapping_matrix", "data_vector_mapper"), ("operated_mapping_matrix", "linear_func_operated_mapping_matrix_dict"),
+              ("w_tilde", "curvature_matrix_mapper_diag"), ("mapper_operated_mapping_matrix_dict", "curvature_matrix_mapper_diag"),
+              ("regularization_matrix", "log_det_regularization_matrix_term")]
+def func_matrix(o, npix): return np.random.RandomState(o["seed"]).randint(-2, 4, size=(npix, o["p"]))
+def gen_structured(rng, mix, j):
+    """a base input whose STRUCTURE is deterministic: every mapper has another number of parameters than its neighbour, the
+    function lists have distinct matrices (alternately the same / different numbers of columns), so that a value taken from the
+    wrong object, a column offset counted over the wrong class of objects or an index of the wrong list changes the outputs"""
+    b = gen_base(rng, mix)
+    npix = sum(1 for r in b["mask"] for v in r if not v)
+    shapes = [[[2, 2], [3, 2]], [[2, 3], [2, 2]], [[3, 3], [2, 3]]][j % 3]
+    ps = [[1, 2], [2, 1], [1, 1], [2, 2]][j % 4]
+    mi = fi = 0; fs = []
+    for o in b["objs"]:
+        if o["k"] == "m":
+            o["shape"] = shapes[mi % 2]; mi += 1
+            o["coef"] = rng.choice(["1", "2", "1/2"]) if mi == 1 else rng.choice(["1", "2", None])
+        else:
+            o["p"] = ps[fi % 2]; fi += 1
+            o["ovr"] = (j // 2) % 2 == 0 if fi == 1 else (j // 2) % 2 == 1 or rng.random() < 0.5
+            o["coef"] = "1" if (rng.random() < 0.15) else None
+            while any(np.array_equal(func_matrix(o, npix)[:, 0], func_matrix(q, npix)[:, 0]) for q in fs): o["seed"] += 1
+            fs.append(o)
+    return b
+def set_kinds(b, i, r0):
+    """the entry point / dataset kind / subclass / dtype variants on a deterministic schedule (shifted by r0 from seed to seed)"""
+    j = i + i // len(GRID_MIXES) + r0
+    for k, v in (("iface", [None, "plain", "scaled"][j % 3]), ("entry", [None, "imaging_from", "class", None][j % 4]),
+                 ("subcls", [True, False, True, False, False][j % 5] or None)):
+        if v: b[k] = v
+        else: b.pop(k, None)
+    idt = [None, "int", None, "f32", "int", None, None][j % 7]
+    first = True
+    for o in b["objs"]:
+        if o["k"] == "f":
+            o["idt"] = idt
+            if idt and first: o["ovr"] = True; first = False     # the typed matrix itself reaches the dictionaries (no convolution)
+    if idt and b.get("sc") and b["sc"][1] < 0: b["sc"] = [b["sc"][0], 0, b["sc"][2]]
+    return b
+def gen_grid(rng, n, start=0):
+    """every slot x {function list before / after / between mappers, >= 2 function lists, >= 2 mappers} x {w-tilde class, mapping
+    class, preloads made by / consumed in the mapping class while the inversion without preloads is of the w-tilde class}"""
+    r0 = rng.randrange(420)
+    for i in range(start, start + n):
+        mix = GRID_MIXES[i % len(GRID_MIXES)]; mode = ["wt", "map", "cross"][(i // len(GRID_MIXES)) % 3]
+        b = gen_structured(rng, mix, i // len(GRID_MIXES) + i % len(GRID_MIXES))
+        b["op"] = "grid"; b["tag"] = mode
+        b["use_w_tilde"] = mode != "map"
+        b["pre_use_wt"] = False if mode == "cross" else rng.choice([None, None, True]) if mode == "wt" else rng.choice([None, True, False])
+        if mode == "map":
+            for o in b["objs"]:
+                if o["k"] == "f" and i % 2 == 0: o["ovr"] = True     # the mapping class reads the function dictionary for overrides only
+        if rng.random() < 0.4: b["sc"] = rng.choice(SCALES)
+        if rng.random() < 0.3:
+            b["px"] = rng.choice([["1", "1/2"], ["1/2", "2"]]); b["origin"] = rng.choice([["0", "0"], ["1/2", "-1"]])
+        if rng.random() < 0.5: b["share"] = True
+        yield set_kinds(b, i, r0)
+def gen_sets_grid(rng, n, start=0):
+    """Preloads.set_* on the same structures (python-level comparisons only): fit_1 identical (whole-matrix slots and both function
+    dictionaries are stored) or with other function objects AND other data (the mapper-only slots are stored)"""
+    r0 = rng.randrange(420)
+    for i in range(start, start + n):
+        k = i // 2
+        mix = GRID_MIXES[k % len(GRID_MIXES)]; mode = ["wt", "map", "cross"][(k // len(GRID_MIXES)) % 3]
+        b = gen_structured(rng, mix, k // len(GRID_MIXES) + k % len(GRID_MIXES) + 1)
+        b["op"] = "sets"; b["tag"] = "grid:" + mode; b["nocoq"] = True
+        b["use_w_tilde"] = mode != "map"; b["pre_use_wt"] = False if mode == "cross" else None
+        has_f = "f" in mix
+        b["fit1"] = ["same", "func+data" if has_f else "data"][i % 2]
+        if mode == "cross" or b["fit1"] != "same":
+            for o in b["objs"]:
+                if o["k"] == "f": o["coef"] = None
+        b["fit1_seed"] = rng.randrange(10 ** 6); b["chain"] = []
+        b["reads0"] = rng.choice([[], ["QCurv"], list(STD)]); b["reads0_after"] = rng.choice([["QCrm", "QCurv", "QRec"], list(STD)])
+        b["setters"] = list(SETTERS) if i % 4 < 2 else rng.sample(SETTERS, 5)
+        b["hist"] = [list(STD), rng.choice([list(STD), list(reversed(STD)), ["QCrm", "QCurv", "QRec", "QMapped", "QDv"]])]
+        if rng.random() < 0.3: b["sc"] = rng.choice([s_ for s_ in SCALES if s_[1] == 0])
+        if rng.random() < 0.5: b["share"] = True
+        yield set_kinds(b, k, r0)
+    # fit_1 differing in ONE respect (incl. another number of parameters: the shape guards of the set_* methods)
+    for i in range(n // 6):
+        mix = GRID_MIXES[(i * 5 + r0) % len(GRID_MIXES)]; mode = ["wt", "map", "cross"][i % 3]
+        b = gen_structured(rng, mix, i + r0)
+        b["op"] = "sets"; b["tag"] = "grid:" + mode; b["nocoq"] = True
+        b["use_w_tilde"] = mode != "map"; b["pre_use_wt"] = False if mode == "cross" else None
+        b["fit1"] = ["shape", "func", "noise", "shape", "data", "func+noise"][(i // 3) % 6]
+        for o in b["objs"]:
+            if o["k"] == "f": o["coef"] = None
+        b["fit1_seed"] = rng.randrange(10 ** 6); b["chain"] = []
+        b["reads0"] = rng.choice([[], ["QCurv"], list(STD)]); b["reads0_after"] = rng.choice([["QCrm", "QCurv", "QRec"], list(STD)])
+        b["setters"] = list(SETTERS); b["hist"] = [list(STD), list(reversed(STD))]
+        yield set_kinds(b, i, r0 + 1)
+
 SETTERS = ["set_w_tilde_imaging", "set_operated_mapping_matrix_with_preloads", "set_linear_func_inversion_dicts",
            "set_curvature_matrix", "set_regularization_matrix_and_term"]
 def gen_sets(rng, n):
@@ -140,7 +263,7 @@ def gen_sets(rng, n):
         b["op"] = "sets"
         b["use_w_tilde"] = bool(i % 2) if i < 8 else b["use_w_tilde"]
         b["pre_use_wt"] = rng.choice([None, None, None, False])          # Preloads(use_w_tilde=...) of fit_0 / fit_1 themselves
-        b["fit1"] = rng.choice(["same", "same", "same", "data", "noise", "func"])
+        b["fit1"] = rng.choice(["same", "same", "same", "data", "noise", "func", "func+data", "shape"])
         b["fit1_seed"] = rng.randrange(10 ** 6)
         b["chain"] = [s for s in SLOTS if rng.random() < 0.4] if rng.random() < 0.25 else []
         b["reads0"] = rng.choice([[], [], ["QCurv"], ["QCrm"], list(STD), ["QDv", "QCurv"]])
@@ -163,6 +286,7 @@ def gen_sets(rng, n):
                 if o["k"] == "f": o["coef"] = None
             b["eps"] = rng.choice([None, "1/4", "1/1024"])
         gen_env(rng, b, plain=0.6); b.pop("alias", None)
+        if b["fit1"] == "shape" and b.get("sc"): b["sc"] = [b["sc"][0], 0, b["sc"][2]]
         yield b
 
 def gen_inputs(tier, rng):
@@ -225,6 +349,9 @@ def gen_inputs(tier, rng):
         yield b
     # Preloads.set_*(fit_0, fit_1): the production path that fills the slots (with the producing inversion's own arrays)
     yield from gen_sets(rng, 60 if big else 10)
+    # directed grids (python level): every slot alone / all but one / all / interacting pairs on every position structure, both classes
+    yield from gen_grid(rng, 108 if big else 36)
+    yield from gen_sets_grid(rng, 216 if big else 72)
     for i in range(28 if big else 5):
         b = gen_base(rng, ["mfmf", "mf", "mm", "fm", "m", "mff", "fmf"][i % 7])
         b["op"] = "subsets"; b["k"] = 3 if big else 2
@@ -250,9 +377,57 @@ def build_ds(aa, inp, m, data, noise, psf):
         na = aa.Array2D.no_mask(values=n * 4.0, pixel_scales=ps) / 4.0
     else:
         da = aa.Array2D.no_mask(values=d, pixel_scales=ps); na = aa.Array2D.no_mask(values=n, pixel_scales=ps)
-    return aa.Imaging(data=da, noise_map=na,
-                      psf=aa.Kernel2D.no_mask(values=np.array(psf, dtype=float), pixel_scales=ps, normalize=False),
-                      use_normalized_psf=False).apply_mask(mask=m)
+    im = aa.Imaging(data=da, noise_map=na,
+                    psf=aa.Kernel2D.no_mask(values=np.array(psf, dtype=float), pixel_scales=ps, normalize=False),
+                    use_normalized_psf=False).apply_mask(mask=m)
+    kind = inp.get("iface")
+    if not kind: return im
+    # the entry point PyAutoGalaxy / PyAutoLens use: a DatasetInterface whose attributes were unpacked from the Imaging object;
+    # "scaled": its noise map is NOT the Imaging object's (scaled by 1 or 2 per pixel, the first pixel kept, so that a w_tilde
+    # computed from the wrong one of the two noise maps passes check_noise_map) and its w_tilde belongs to the scaled noise map
+    from autoarray.inversion.inversion.dataset_interface import DatasetInterface
+    if kind == "scaled":
+        fac = np.array([1.0] + [float(1 + (3 * i + len(psf)) % 2) for i in range(1, im.noise_map.shape[0])])
+        if np.all(fac == 1.0): fac[-1] = 2.0
+        nm = im.noise_map * aa.Array2D(values=fac, mask=m)
+    else:
+        nm = im.noise_map
+    dsi = DatasetInterface(data=im.data, noise_map=nm, convolver=im.convolver, w_tilde=None, grids=im.grids)
+    dsi.psf = im.psf; dsi.base = im
+    dsi.w_tilde = new_w_tilde(aa, dsi) if kind == "scaled" else im.w_tilde
+    return dsi
+
+_SUB = None
+def subclasses(aa):
+    """(f) trivial SUBCLASSES of every class the inversion code dispatches on / accepts"""
+    global _SUB
+    if _SUB is None:
+        class SubPreloads(aa.Preloads): pass
+        class SubSettings(aa.SettingsInversion): pass
+        class SubMapper(aa.MapperRectangular): pass
+        class SubFuncList(aa.m.MockLinearObjFuncList): pass
+        class SubConstant(aa.reg.Constant): pass
+        _SUB = {"pre": SubPreloads, "st": SubSettings, "m": SubMapper, "f": SubFuncList, "reg": SubConstant}
+    return _SUB
+def mkpre(aa, inp, **kw):
+    return (subclasses(aa)["pre"] if inp.get("subcls") else aa.Preloads)(**kw)
+
+def make_inv(aa, ds, objs, st, inp, pre=None):
+    """the inversion, through the entry point of the case: aa.Inversion (= factory.inversion_from), inversion_imaging_from, or the
+    constructor of the class the factory chooses; pre=None: the preloads argument is NOT passed (the callee's default is used)"""
+    entry = inp.get("entry")
+    kw = {} if pre is None else {"preloads": pre}
+    if entry == "imaging_from":
+        from autoarray.inversion.inversion.factory import inversion_imaging_from
+        return inversion_imaging_from(dataset=ds, linear_obj_list=objs, settings=st, **kw)
+    if entry == "class":
+        from autoarray.inversion.inversion.imaging.mapping import InversionImagingMapping
+        from autoarray.inversion.inversion.imaging.w_tilde import InversionImagingWTilde
+        if wt_chosen(inp, None if pre is None else pre.use_w_tilde):
+            w = pre.w_tilde if (pre is not None and pre.w_tilde is not None) else ds.w_tilde
+            return InversionImagingWTilde(dataset=ds, w_tilde=w, linear_obj_list=objs, settings=st, **kw)
+        return InversionImagingMapping(dataset=ds, linear_obj_list=objs, settings=st, **kw)
+    return aa.Inversion(dataset=ds, linear_obj_list=objs, settings=st, **kw)
 
 def build(inp):
     aa = import_aa()
@@ -264,24 +439,29 @@ def build(inp):
     grid_f = aa.Grid2D.from_mask(mask=m)
     g = inp.get("sc", [0, 0, 0])[1]
     objs = []
+    sub = subclasses(aa) if inp.get("subcls") else None
     for o in inp["objs"]:
-        reg = None if o["coef"] is None else aa.reg.Constant(coefficient=float(Fraction(o["coef"])))
+        reg = None if o["coef"] is None else (sub["reg"] if sub else aa.reg.Constant)(coefficient=float(Fraction(o["coef"])))
         if o["k"] == "m":
             os_ = aa.OverSamplerUniform(mask=m, sub_size=o["sub"])
             grid = os_.over_sampled_grid
             mesh = aa.Mesh2DRectangular.overlay_grid(shape_native=tuple(o["shape"]), grid=grid)
             mg = aa.MapperGrids(mask=m, source_plane_data_grid=grid, source_plane_mesh_grid=mesh)
-            objs.append(aa.MapperRectangular(mapper_grids=mg, over_sampler=os_, border_relocator=None, regularization=reg))
+            objs.append((sub["m"] if sub else aa.MapperRectangular)(mapper_grids=mg, over_sampler=os_, border_relocator=None, regularization=reg))
         else:
             r = np.random.RandomState(o["seed"])
             mm = r.randint(-2, 4, size=(npix, o["p"])).astype(float) * 2.0 ** g
             ovr = r.randint(-2, 4, size=(npix, o["p"])).astype(float) * 2.0 ** g if o["ovr"] else None
-            objs.append(aa.m.MockLinearObjFuncList(parameters=o["p"], grid=grid_f, mapping_matrix=mm, regularization=reg,
+            if o.get("idt") and g >= 0:
+                # (f) input kinds: integer- / float32-typed matrices holding the same (integral) values
+                dt = np.int64 if o["idt"] == "int" else np.float32
+                mm = mm.astype(dt); ovr = None if ovr is None else ovr.astype(dt)
+            objs.append((sub["f"] if sub else aa.m.MockLinearObjFuncList)(parameters=o["p"], grid=grid_f, mapping_matrix=mm, regularization=reg,
                                                    operated_mapping_matrix_override=ovr))
     eps = None if inp["eps"] is None else float(Fraction(inp["eps"]))
     st = inp.get("st") or {}
     def mk():
-        return aa.SettingsInversion(use_w_tilde=inp["use_w_tilde"], use_positive_only_solver=inp["pos"],
+        return (sub["st"] if sub else aa.SettingsInversion)(use_w_tilde=inp["use_w_tilde"], use_positive_only_solver=inp["pos"],
                                     no_regularization_add_to_curvature_diag_value=eps,
                                     force_edge_pixels_to_zeros=not st.get("edge0", False),
                                     positive_only_uses_p_initial=st.get("pinit"))
@@ -354,17 +534,32 @@ def input_fingerprints(ds, objs, st):
         if o.operated_mapping_matrix_override is not None:
             fp.append((f"obj{i}.override", fingerprint(np.asarray(o.operated_mapping_matrix_override))))
     fp.append(("settings", repr(sorted((k, repr(v)) for k, v in vars(st).items()))))
+    # (g) the list object itself, the regularization objects, each mapper's cached unique-mapping arrays, the dataset's w_tilde
+    fp.append(("linear_obj_list", [id(o) for o in objs]))
+    from autoarray.inversion.pixelization.mappers.abstract import AbstractMapper
+    for i, o in enumerate(objs):
+        fp.append((f"obj{i}.regularization", None if o.regularization is None else
+                   (id(o.regularization), repr(sorted((k, repr(v)) for k, v in vars(o.regularization).items())))))
+        if isinstance(o, AbstractMapper):
+            um = o.unique_mappings
+            fp.append((f"obj{i}.unique_mappings", fingerprint({k: getattr(um, k) for k in ("data_to_pix_unique", "data_weights", "pix_lengths")})))
+    fp.append(("dataset.w_tilde", fingerprint(ds.w_tilde)))
     return fp
 
 def defaults_pristine(aa):
     """the shared default-argument objects of the factories (settings=SettingsInversion(), preloads=Preloads())"""
     from autoarray.inversion.inversion import factory
     ref_s = repr(sorted((k, repr(v)) for k, v in vars(aa.SettingsInversion()).items()))
-    for f in (factory.inversion_from, factory.inversion_imaging_from):
+    from autoarray.inversion.inversion.abstract import AbstractInversion
+    from autoarray.inversion.inversion.imaging.abstract import AbstractInversionImaging
+    from autoarray.inversion.inversion.imaging.mapping import InversionImagingMapping
+    from autoarray.inversion.inversion.imaging.w_tilde import InversionImagingWTilde
+    for f in (factory.inversion_from, factory.inversion_imaging_from, AbstractInversion.__init__, AbstractInversionImaging.__init__,
+              InversionImagingMapping.__init__, InversionImagingWTilde.__init__):
         for dflt in f.__defaults__ or ():
-            if isinstance(dflt, aa.Preloads) and any(v is not None for v in vars(dflt).values()): return f"default Preloads() of {f.__name__} was written to"
+            if isinstance(dflt, aa.Preloads) and any(v is not None for v in vars(dflt).values()): return f"default Preloads() of {f.__qualname__} was written to"
             if isinstance(dflt, aa.SettingsInversion) and repr(sorted((k, repr(v)) for k, v in vars(dflt).items())) != ref_s:
-                return f"default SettingsInversion() of {f.__name__} was modified"
+                return f"default SettingsInversion() of {f.__qualname__} was modified"
     return ""
 
 def private(aa, ds, s, v):
@@ -499,26 +694,28 @@ class Track:
             self.obs0 = [observe(self.inv0, q) for q in STD]
         else:
             self.vals = slot_values(aa, ds, objs, settings, inp, pre_use_wt, slots)
-        self.pre = aa.Preloads(use_w_tilde=pre_use_wt, **self.vals)
-        self.C = ds.convolver.convolve_mapping_matrix(mapping_matrix=np.eye(self.npix))
-        self.oracle = oracle(aa, ds, objs, settings.mk, pre_use_wt)
-        self.cin = cinput(aa, ds, objs, settings, inp, self.npix)
+        self.pre = mkpre(aa, inp, use_w_tilde=pre_use_wt, **self.vals)
+        self.nocoq = bool(inp.get("nocoq"))
+        if not self.nocoq:
+            self.C = ds.convolver.convolve_mapping_matrix(mapping_matrix=np.eye(self.npix))
+            self.oracle = oracle(aa, ds, objs, settings.mk, pre_use_wt)
+            self.cin = cinput(aa, ds, objs, settings, inp, self.npix)
         self.fp_in = input_fingerprints(ds, objs, settings())
         self.fresh = {}
         self.segs = []; self.open_segment()
         self.why = ""
     def open_segment(self):
         self.segs_open = True
-        self.seg = {"pre": cstore(self.pre, self.npix), "h": [], "outs": [],
+        self.seg = {"pre": "" if self.nocoq else cstore(self.pre, self.npix), "h": [], "outs": [],
                     "before": {s: (v, fingerprint(v)) for s, v in vars(self.pre).items() if s in SLOTS and v is not None}}
     def fresh_of(self, qs):
         k = tuple(qs)
         if k not in self.fresh:
-            inv = self.aa.Inversion(dataset=self.ds, linear_obj_list=self.objs, settings=self.settings())
+            inv = make_inv(self.aa, self.ds, self.objs, self.settings(), self.inp)
             self.fresh[k] = [observe(inv, q) for q in qs]
         return self.fresh[k]
     def step(self, qs):
-        inv = self.aa.Inversion(dataset=self.ds, linear_obj_list=self.objs, settings=self.settings(), preloads=self.pre)
+        inv = make_inv(self.aa, self.ds, self.objs, self.settings(), self.inp, self.pre)
         o = [observe(inv, q) for q in qs]
         self.seg["h"].append(qs); self.seg["outs"].append(o)
         bad = [q for q, a, b in zip(qs, o, self.fresh_of(qs)) if not same(a, b)]
@@ -526,12 +723,11 @@ class Track:
     def close_segment(self):
         if not self.segs_open: return
         self.segs_open = False
-        # the only array an inversion may write in place: data_vector_mapper, by the w-tilde class with a function object
-        allowed = {"data_vector_mapper"} if (self.wt and self.has_f) else set()
+        # NO array held by the Preloads object may be written (since /repo 95fc1c6 the w-tilde class completes a copy of data_vector_mapper)
         for s, (v, fp) in self.seg["before"].items():
-            if fingerprint(v) != fp and s not in allowed and not self.why: self.why = f"preloaded {s} was modified in place"
+            if fingerprint(v) != fp and not self.why: self.why = f"preloaded {s} was modified in place"
         sg = self.seg
-        if sg["h"]:
+        if sg["h"] and not self.nocoq:
             self.segs.append(f"(KHist {qm(self.C)} {self.oracle} {self.cin} {sg['pre']} {clist([clist(qs) for qs in sg['h']])} "
                              f"{couts(self.fresh_of(sg['h'][0]))} {clist([couts(o) for o in sg['outs']])} {cstore(self.pre, self.npix)})")
     def finish(self):
@@ -593,29 +789,40 @@ def run_sets(inp):
     wt0 = wt_chosen(inp, pre_use_wt)
     # fit_1: the same model instance, or one that differs in the data, in the noise map, or in the function objects
     kind1 = inp["fit1"]; rs = np.random.RandomState(inp["fit1_seed"]); ds1, objs1 = ds, objs
-    if kind1 in ("data", "noise"):
+    parts1 = kind1.split("+")
+    if "data" in parts1 or "noise" in parts1:
         H, W = len(inp["mask"]), len(inp["mask"][0])
-        data1 = [[int(v) for v in r] for r in rs.randint(-3, 7, size=(H, W))] if kind1 == "data" else inp["data"]
-        noise1 = [[["1/2", "1", "2", "4"][int(v)] for v in r] for r in rs.randint(0, 4, size=(H, W))] if kind1 == "noise" else inp["noise"]
+        data1 = [[int(v) for v in r] for r in rs.randint(-3, 7, size=(H, W))] if "data" in parts1 else inp["data"]
+        noise1 = [[["1/2", "1", "2", "4"][int(v)] for v in r] for r in rs.randint(0, 4, size=(H, W))] if "noise" in parts1 else inp["noise"]
         ds1 = build_ds(aa, inp, settings.mask, data1, noise1, inp["psf"])
-    elif kind1 == "func" and has_f:
+    if "func" in parts1 and has_f:
         inp1 = dict(inp); inp1["objs"] = [dict(o, seed=o["seed"] + 1 + int(rs.randint(1000))) if o["k"] == "f" else o for o in inp["objs"]]
         objs1 = [a if o["k"] == "m" else b for o, a, b in zip(inp["objs"], objs, build(inp1)[2])]
+    if "shape" in parts1:
+        # fit_1's model has another NUMBER of parameters (a function list with another number of columns / another mesh)
+        inp1 = dict(inp); ch = False; o1 = []
+        for o in inp["objs"]:
+            if o["k"] == "f" and has_f and not ch: o1.append(dict(o, p=3 - o["p"])); ch = True
+            elif o["k"] == "m" and not has_f and not ch: o1.append(dict(o, shape=[3, 3] if o["shape"] != [3, 3] else [2, 2])); ch = True
+            else: o1.append(o)
+        inp1["objs"] = o1
+        objs1 = [a if o == q else b for o, q, a, b in zip(inp["objs"], o1, objs, build(inp1)[2])]
     own0 = slot_values(aa, ds, objs, settings, inp, pre_use_wt, inp["chain"]) if inp["chain"] else {}
     npix = ds.data.shape[0]
-    pre_own0 = aa.Preloads(use_w_tilde=pre_use_wt, **own0)
+    pre_own0 = mkpre(aa, inp, use_w_tilde=pre_use_wt, **own0)
     own0_coq = cstore(pre_own0, npix); own1_coq = cstore(aa.Preloads(use_w_tilde=pre_use_wt), npix)
-    inv0 = aa.Inversion(dataset=ds, linear_obj_list=objs, settings=settings(), preloads=pre_own0)
-    inv1 = aa.Inversion(dataset=ds1, linear_obj_list=objs1, settings=settings(), preloads=aa.Preloads(use_w_tilde=pre_use_wt))
-    C = ds.convolver.convolve_mapping_matrix(mapping_matrix=np.eye(npix))
-    orc = oracle_str(oracle_parts(aa, ds, objs, settings.mk, pre_use_wt), oracle_parts(aa, ds1, objs1, settings.mk, pre_use_wt))
-    cin0 = cinput(aa, ds, objs, settings, inp, npix); cin1 = cinput(aa, ds1, objs1, settings, inp, npix)
-    fit0 = aa.m.MockFitImaging(dataset=ds, inversion=inv0, noise_map=ds.noise_map)
-    fit1 = aa.m.MockFitImaging(dataset=ds1, inversion=inv1, noise_map=ds1.noise_map)
+    inv0 = make_inv(aa, ds, objs, settings(), inp, pre_own0)
+    inv1 = make_inv(aa, ds1, objs1, settings(), inp, mkpre(aa, inp, use_w_tilde=pre_use_wt))
+    nocoq = bool(inp.get("nocoq"))
+    C = [] if nocoq else ds.convolver.convolve_mapping_matrix(mapping_matrix=np.eye(npix))
+    orc = "" if nocoq else oracle_str(oracle_parts(aa, ds, objs, settings.mk, pre_use_wt), oracle_parts(aa, ds1, objs1, settings.mk, pre_use_wt))
+    cin0 = "" if nocoq else cinput(aa, ds, objs, settings, inp, npix); cin1 = "" if nocoq else cinput(aa, ds1, objs1, settings, inp, npix)
+    fit0 = aa.m.MockFitImaging(dataset=getattr(ds, "base", ds), inversion=inv0, noise_map=ds.noise_map)
+    fit1 = aa.m.MockFitImaging(dataset=getattr(ds1, "base", ds1), inversion=inv1, noise_map=ds1.noise_map)
     fp_in = input_fingerprints(ds, objs, settings())
     why = ""
     before0 = [observe(inv0, q) for q in inp["reads0"]]
-    pre = aa.Preloads()
+    pre = mkpre(aa, inp)
     raised = []; raised_idx = []
     for i_, name in enumerate(inp["setters"]):
         r = call_res(lambda: getattr(pre, name)(fit0, fit1))
@@ -623,7 +830,7 @@ def run_sets(inp):
             raised.append((name, r[1])); raised_idx.append((i_, r[1]))
             if not why: why = f"{name} raised {r[1]}"
     filled = {s: getattr(pre, s) for s in SLOTS if getattr(pre, s) is not None}
-    post_coq = cstore(pre, npix)
+    post_coq = "" if nocoq else cstore(pre, npix)
     # the fresh-value premise: every filled slot holds what a fresh inversion of fit_0's class computes
     ref = aa.Inversion(dataset=ds, linear_obj_list=objs, settings=settings(), preloads=aa.Preloads(use_w_tilde=pre_use_wt))
     def val_of(s):
@@ -638,7 +845,6 @@ def run_sets(inp):
         return ("L", [np.array(x, dtype=float) for x in v.values()]) if isinstance(v, dict) else ("M", np.array(v, dtype=float))
     for s, v in filled.items():
         if s == "w_tilde": continue
-        if s == "data_vector_mapper" and wt0 and has_f and inp["chain"]: continue      # may legitimately be the completed vector
         if not same(as_val(s, v), val_of(s)) and not why: why = f"{s} stored by the set_* methods is not the fresh value"
     fps = {s: fingerprint(v) for s, v in filled.items()}
     # fit_0's inversion goes on being used AFTER the preloads were set
@@ -647,11 +853,8 @@ def run_sets(inp):
     fresh_after0 = [observe(fresh0, q) for q in inp["reads0_after"]]
     bad = [q for q, a, b in zip(inp["reads0_after"], after0, fresh_after0) if not same(a, b)]
     if bad and not why: why = f"fit_0.inversion attributes read after set_*: {bad} differ from a fresh inversion"
-    # (a data_vector_mapper that fit_0's inversion itself had been given as a preload is the same array: the w-tilde class with a
-    #  function object completes it in place, which leaves it a valid preload -- C15_store_stays_consistent)
-    allowed0 = {"data_vector_mapper"} if (wt0 and has_f and "data_vector_mapper" in inp["chain"]) else set()
     for s, v in filled.items():
-        if fingerprint(v) != fps[s] and s not in allowed0 and not why: why = f"preloaded {s} changed when fit_0.inversion was read after set_*"
+        if fingerprint(v) != fps[s] and not why: why = f"preloaded {s} changed when fit_0.inversion was read after set_*"
     # the fresh values of the filled slots (specification side of the Coq case)
     fr = {}
     for s_ in filled:
@@ -663,8 +866,8 @@ def run_sets(inp):
         elif s_ == "log_det_regularization_matrix_term": fr[s_] = float(ref.log_det_regularization_matrix_term)
         else:
             v = getattr(ref, s_); fr[s_] = dict(v) if isinstance(v, dict) else np.array(v, dtype=float)
-    fresh_coq = cstore(aa.Preloads(**fr), npix)
-    dvm_loose = bool(wt0 and has_f and "data_vector_mapper" in inp["chain"])
+    fresh_coq = "" if nocoq else cstore(aa.Preloads(**fr), npix)
+    dvm_loose = False     # (before /repo 95fc1c6 fit_0's own preloaded data_vector_mapper could already hold the function rows)
     CN = {"set_w_tilde_imaging": "SetWt", "set_operated_mapping_matrix_with_preloads": "SetOmm", "set_linear_func_inversion_dicts": "SetLf",
           "set_curvature_matrix": "SetCurv", "set_regularization_matrix_and_term": "SetReg"}
     rz = {i for i, _ in raised_idx}
@@ -682,6 +885,7 @@ def run_sets(inp):
     why = why or defaults_pristine(aa)
     kind = ("sets:" + ("wtilde" if wt0 else "mapping") + ":" + "".join(o["k"] for o in inp["objs"]) + ":fit1=" + kind1
             + (":chain" if inp["chain"] else "") + f":{len(filled)}filled")
+    if inp.get("nocoq"): coq = None; t.segs = []
     return {"coq": coq, "extra_coq": t.segs, "py_ok": not why, "kind": kind, "nontrivial": nm > 0 and len(filled) > 1,
             "out": {"filled": sorted(filled), "use_w_tilde": pre.use_w_tilde, "raised": raised, "why": why}}
 
@@ -692,9 +896,9 @@ def run_subsets(inp):
     has_f = any(o["k"] == "f" for o in inp["objs"]); nm = sum(1 for o in inp["objs"] if o["k"] == "m")
     vals = slot_values(aa, ds, objs, settings, inp, None, SLOTS)
     names = list(vals)
-    fresh_inv = aa.Inversion(dataset=ds, linear_obj_list=objs, settings=settings())
+    fresh_inv = make_inv(aa, ds, objs, settings(), inp)
     fresh = [observe(fresh_inv, q) for q in STD]
-    allowed = {"data_vector_mapper"} if (wt and has_f) else set()
+    allowed = set()       # no preloaded array may be modified (/repo 95fc1c6)
     bad = None; n = 0
     for r in range(len(names) + 1):
         for sub in itertools.combinations(names, r):
@@ -703,10 +907,10 @@ def run_subsets(inp):
                 v = vals[s]
                 mine[s] = ({k: np.array(a).copy() for k, a in v.items()} if isinstance(v, dict) else
                            new_w_tilde(aa, ds) if s == "w_tilde" else v if isinstance(v, float) else np.array(v).copy())
-            pre = aa.Preloads(**mine)
+            pre = mkpre(aa, inp, **mine)
             before = {s: fingerprint(v) for s, v in mine.items()}
             for k in range(inp["k"]):
-                inv = aa.Inversion(dataset=ds, linear_obj_list=objs, settings=settings(), preloads=pre)
+                inv = make_inv(aa, ds, objs, settings(), inp, pre)
                 o = [observe(inv, q) for q in STD]; n += 1
                 d = [q for q, a, b in zip(STD, o, fresh) if not same(a, b)]
                 if d and bad is None: bad = {"subset": list(sub), "inversion": k, "differs": d}
@@ -715,6 +919,68 @@ def run_subsets(inp):
                     bad = {"subset": list(sub), "modified_in_place": s}
     kind = "subsets:" + ("wtilde" if wt else "mapping") + ":" + "".join(o["k"] for o in inp["objs"])
     return {"coq": None, "py_ok": bad is None, "out": {"slots": names, "inversions": n, "failure": bad}, "kind": kind,
+            "nontrivial": nm > 0}
+
+EXTRA = {"XMapDict": "mapped_reconstructed_data_dict", "XRecDict": "reconstruction_dict", "XImgDict": "mapped_reconstructed_image_dict",
+         "XImg": "mapped_reconstructed_image"}
+def observe_x(inv, q, objs):
+    """python-level observations beyond the 15 modelled attributes: the per-object dictionaries (keys = the linear objects, in order)"""
+    if q in ATTR: return observe(inv, q)
+    def f():
+        v = getattr(inv, EXTRA[q])
+        if isinstance(v, dict):
+            if [id(k) for k in v] != [id(o) for o in objs]: raise AssertionError("dictionary keys are not the linear objects in order")
+            return np.concatenate([np.asarray(x, dtype=float).ravel() for x in v.values()])
+        return np.array(v, dtype=float)
+    return ("RV", call_res(f))
+
+def run_grid(inp):
+    aa, ds, objs, settings = build(inp)
+    pre_use_wt = inp.get("pre_use_wt")
+    wt = wt_chosen(inp, pre_use_wt)
+    has_f = any(o["k"] == "f" for o in inp["objs"]); nm = sum(1 for o in inp["objs"] if o["k"] == "m")
+    QS = list(STD) + list(EXTRA)
+    fp_in = input_fingerprints(ds, objs, settings())
+    fresh_inv = make_inv(aa, ds, objs, settings(), inp)
+    fresh = {q: observe_x(fresh_inv, q, objs) for q in QS}
+    vals = slot_values(aa, ds, objs, settings, inp, pre_use_wt, SLOTS)
+    names = list(vals)
+    subs = [()] + [(s,) for s in names] + [pr for pr in GRID_PAIRS if all(x in vals for x in pr)]
+    subs += [tuple(x for x in names if x != s) for s in names] + [tuple(names)]
+    allowed = set()       # no preloaded array may be modified (/repo 95fc1c6)
+    bad = None; n = 0
+    def history(pre, mine, label, idx):
+        nonlocal bad, n
+        before = {s: fingerprint(v) for s, v in mine.items()}
+        for k in range(2):
+            r = (idx * 5 + k * 7) % len(QS)
+            order = QS[r:] + QS[:r]
+            if k == 1: order = list(reversed(order))
+            inv = make_inv(aa, ds, objs, settings(), inp, pre); n += 1
+            d = [q for q in order if not same(observe_x(inv, q, objs), fresh[q])]
+            if d and bad is None: bad = {"subset": label, "inversion": k, "read_order": order, "differs": d}
+        for s, v in mine.items():
+            if fingerprint(v) != before[s] and s not in allowed and bad is None: bad = {"subset": label, "modified_in_place": s}
+        now = {s for s in SLOTS if getattr(pre, s) is not None}
+        if (now != set(mine) or pre.use_w_tilde != pre_use_wt) and bad is None:
+            bad = {"subset": label, "preloads_object_written": sorted(now ^ set(mine)) or ["use_w_tilde"]}
+    for idx, sub in enumerate(subs):
+        mine = {s: private(aa, ds, s, vals[s]) for s in sub}
+        history(mkpre(aa, inp, use_w_tilde=pre_use_wt, **mine), mine, list(sub), idx)
+    # the slots hold the very arrays / dictionaries of the inversion that produced them (as Preloads.set_* stores them)
+    va, inv0 = slot_values(aa, ds, objs, settings, inp, pre_use_wt, SLOTS, alias=True)
+    obs0 = [observe(inv0, q) for q in STD]
+    history(mkpre(aa, inp, use_w_tilde=pre_use_wt, **va), va, "all, aliases of the producing inversion", 3)
+    if [q for q, a, b in zip(STD, [observe(inv0, q) for q in STD], obs0) if not same(a, b)] and bad is None:
+        bad = {"subset": "all, aliases", "producing_inversion_changed": True}
+    why = ""
+    if fp_in != input_fingerprints(ds, objs, settings()):
+        now = dict(input_fingerprints(ds, objs, settings()))
+        why = "the caller's inputs were modified: " + ", ".join(k for k, v in fp_in if now.get(k) != v)
+    why = why or defaults_pristine(aa)
+    kind = ("grid:" + ("wtilde" if wt else "mapping") + ("-cross" if wt != wt_chosen(inp, None) else "") + ":" + "".join(o["k"] for o in inp["objs"])
+            + "".join(":" + k for k in ("iface", "entry", "subcls") if inp.get(k)))
+    return {"coq": None, "py_ok": bad is None and not why, "out": {"slots": names, "inversions": n, "failure": bad, "why": why}, "kind": kind,
             "nontrivial": nm > 0}
 
 def run_noise(inp):
@@ -732,5 +998,6 @@ def run_noise(inp):
 def run_case(inp):
     if inp["op"] == "hist": return run_hist(inp)
     if inp["op"] == "subsets": return run_subsets(inp)
+    if inp["op"] == "grid": return run_grid(inp)
     if inp["op"] == "sets": return run_sets(inp)
     return run_noise(inp)
